@@ -4,11 +4,11 @@ ASSUME = ["requests count as received when fed to the socket; hop-by-hop ids of 
 
 def plans(tier):
     th = tier == "thorough"
-    mc = [dict(cfg="A", depth=5 if th else 4, maxtime=2, alpha=["cer", "dwr", "dwa", "dpr", "req", "ans", "ureq"], pairs=False, faults=False, maxconn=2),
+    mc = [dict(cfg="A", depth=5 if th else 4, maxtime=2, alpha=["cer", "dwr", "dwr0", "dwa", "dpr", "req", "req0", "ans", "ureq"], pairs=False, faults=False, maxconn=2),
           dict(cfg="B", depth=5 if th else 4, maxtime=3, alpha=["cea", "dwr", "dpa", "req", "ans"], pairs=True, faults=True, maxconn=2)]
     if th:
         mc.append(dict(cfg="C", depth=5, maxtime=2, alpha=["cer", "cea", "req", "dpr", "ans"], pairs=False, faults=True, maxconn=3, timeout=2400))
-    sim = [dict(cfg="A", depth=10, maxtime=5, alpha=["cer", "dwr", "dwa", "dpr", "dpa", "req", "ans", "ureq"], num=400 if th else 60, maxconn=3),
+    sim = [dict(cfg="A", depth=10, maxtime=5, alpha=["cer", "dwr", "dwr0", "dwa", "dpr", "dpa", "req", "req0", "ans", "ureq"], num=400 if th else 60, maxconn=3),
            dict(cfg="C", depth=10, maxtime=6, alpha=["cer", "cea", "dwr", "dwa", "dpr", "dpa", "req", "ans", "ureq"], num=400 if th else 60, maxconn=4)]
     return mc, sim
 
@@ -27,4 +27,6 @@ def enum_plans(tier):
     th = tier == "thorough"
     # two ready connections of two peers; the same hop-by-hop id in flight on both (equal and different end-to-end ids);
     # answers submitted in every order, also twice
-    return [dict(cfg="HOLD2", depth=6 if th else 5, maxtime=0, alpha=["req1", "req2"] + (["resub"] if False else []), faults=False, maxconn=2, prefix=two_ready_prefix())]
+    return [dict(cfg="HOLD2", depth=6 if th else 5, maxtime=0, alpha=["req1", "req2"] + (["resub"] if False else []), faults=False, maxconn=2, prefix=two_ready_prefix()),
+            # zero is a legal identifier: watchdog and application requests with hop-by-hop = end-to-end = 0
+            dict(cfg="A", depth=5 if th else 4, maxtime=0, alpha=["cerok", "dwr0", "req0"], faults=False, maxconn=1)]
